@@ -134,7 +134,7 @@ PROPS = {
     },
     "C12": {
         "expand": [("derive_fix", "derive_expanded.rs")],
-        "verus": ["c12_generic", "c12_derive", "c12_leaf"],
+        "verus": ["c12_generic", "c12_derive", "c12_leaf", "c12_interned"],
         "kani": [
             {"crate": "c12", "kind": "complete", "harnesses": C12_FAST, "tiers": ("quick", "thorough"), "jobs": 14,
              "bound": "none: full-domain symbolic input, loops unrolled to operand width with unwinding assertions"},
@@ -143,7 +143,7 @@ PROPS = {
         ],
         "native": [
             {"name": "roundtrip_types_not_under_contract", "bin": "replay_c12", "crate": "replay", "tiers": ("quick", "thorough"),
-             "bound": "exhaustive 8/16-bit integers, every 7-bit varint boundary +-1 and 64 seeded values per wider width, nested through the generic constructors; String/PathBuf, BTree*/Hash*/VecDeque/LinkedList, SmallVec, BitVec (5 storage types x 2 bit orders x 17 lengths x 3 head offsets), derive fixtures: decode(encode(v)) == v and exact consumption, on the real crate with the optional features on"},
+             "bound": "exhaustive 8/16-bit integers, every 7-bit varint boundary +-1 and 64 seeded values per wider width, nested through the generic constructors; String/PathBuf, BTree*/Hash*/VecDeque/LinkedList, SmallVec, BitVec (5 storage types x 2 bit orders x 17 lengths x 3 head offsets), derive fixtures; interned handles (Interned<String|str|PathBuf|Path|Vec<u32>|[u32]>, repeats, equal content under different handle types in one session in every order, nested handles; decoded with a FRESH interner and with the writer's): decode(encode(v)) == v and exact consumption, on the real crates with the optional features on"},
         ],
         "witness": witness.c12,
         "assumptions": [
@@ -153,7 +153,8 @@ PROPS = {
             "Plugin and Session are opaque: no impl under contract looks inside them",
             "std collection / wrapper models listed in trusted_base (Cell, Duration, Vec::into_boxed_slice, Arc/Rc<[T]>::from(Vec), u8::from(bool), char::from_u32)",
             "decode contract is completeness on the encoder's image + exact consumption + image equality (w.bytes()==v.bytes()); value equality follows from injectivity of the image, proved for the primitive leaves (lemma_inj_*) and structural for the constructors",
-            "not under contract: String/str/Path (UTF-8 byte reasoning), VecDeque/LinkedList/BTreeMap/BTreeSet/HashMap/HashSet/DashMap/DashSet (iterator models), Cow, RefCell, atomics, [T;N]::decode (MaybeUninit), SmallVec, BitVec, Interned",
+            "c12_interned: WiredInterned<T> (the framing of interned handles) is an ordinary Wire type verified in both directions; `Encode for Interned<T>` is verified against a session-aware contract (SessionEncode, header-sub): source form iff (T::STABLE_TYPE_ID, content hash) was not yet in the session's seen-set, reference form (tag 1 + hash) otherwise. Stand-ins: Session::get_mut_or_default (typed slot borrow), Interner::hash_128 (a function of the value), Plugin::get (ASSUMED to hold the interner), Compact128 codec (derive shape verified in c12_derive), FxHashSet, obeys_key_model::<InternedID>. NOT decided deductively: that the decoder's interner still holds every referenced value when `get_from_hash::<T>` runs (shared interner behind &Plugin, Weak handles, inner encodes may touch the session) and the four Decode impls for Interned<..> -- covered by the bounded run only",
+            "not under contract: String/str/Path (UTF-8 byte reasoning), VecDeque/LinkedList/BTreeMap/BTreeSet/HashMap/HashSet/DashMap/DashSet (iterator models), Cow, RefCell, atomics, [T;N]::decode (MaybeUninit), SmallVec, BitVec",
             "derive macros: verified on the fixture types of fixtures/derive_fix (named/tuple/unit/generic structs, enums with unit/tuple/struct variants, generic enum, skip on first/middle/last positions), expanded on every run by the real proc-macro crate; other shapes are covered only in so far as the macro treats them uniformly",
             "rule R13: alpha-renaming of the derive's method type parameter (__E/__D -> E/D)",
         ],
